@@ -70,6 +70,11 @@ def enumeration_modes(repo, chk):
         if exp is None and mode[0] == 'plain':
             chk.unsure('C06.2', 'R15', site, desc, 'plain enumeration without a target_ranking_only decision')
             continue
+        if not cs and not (ret is not None and isinstance(getattr(ret, 'value', None), (ast.List, ast.Tuple)) and not ret.value.elts):
+            # nothing on this path was classified as an enumeration, yet it does not return a literal empty list: the pairs are produced by
+            # code this walk does not follow (generators, helpers of another shape)
+            chk.unsure('C06.2', 'R15', site, desc, 'the pairs returned on this path are produced by code the enumeration walk does not follow')
+            continue
         unknown = [c for c in cs if c.kind == 'unknown']
         if unknown:
             chk.unsure('C06.2', 'R15', site, desc, f'cannot classify {unknown[0].text}')
